@@ -220,6 +220,8 @@ def generate(workdir='/verif/work'):
         g.append('def grammar : Grammar := { prods := allProds, kwTables := kwTables, kwDefault := kwDefault, kwLatest := %d, kwNoGuard := [%s] }' % (ref_idx if ref_idx is not None else 999, ', '.join(map(str, no_guard))))
     else:
         g.append('def grammar : Grammar := { prods := allProds, kwTables := kwTables, kwDefault := kwDefault }')
+    g.append('/-- the version strings accepted by `begin_keywords, in the order of the version codes -/')
+    g.append('def kwNames : List (List Nat) := [%s]' % ', '.join(lbytes(v) for v in vers))
     g.append('def nProds : Nat := %d' % len(names))
     for entry in ('source_text', 'source_text_incomplete', 'library_text', 'library_text_incomplete', 'preprocessor_text',
                   'white_space', 'description', 'library_description', 'source_description', 'simple_identifier_impl',
